@@ -373,7 +373,14 @@ class Parser:
             self._reset(mark)
         return None
 
+    # the recursive-descent methods need about 40 frames per level of brackets: the interpreter's default limit of 1000
+    # frames is used up by 25 levels
+    MIN_RECURSION_LIMIT = 3000
+
     def parse(self, rule: str, call_invalid_rules: bool = False) -> ast.AST | Any | None:
+        if sys.getrecursionlimit() < self.MIN_RECURSION_LIMIT:
+            # raised for good: putting the old value back after the parse would race with parses in other threads
+            sys.setrecursionlimit(self.MIN_RECURSION_LIMIT)
         try:
             return self._utf8_columns(self._python_identifiers(self._parse(rule, call_invalid_rules)))
         except RecursionError:
